@@ -128,7 +128,11 @@ func (w *wkWorld) exec(f []string) string {
 		return "ok"
 	case "pushall":
 		xs := ints(f[1:])
-		w.w.PushAll(xs...)
+		arg := append(make([]int, 0, len(xs)+4), xs...)
+		w.w.PushAll(arg...)
+		for i := range arg[:cap(arg)] { // the argument slice stays the caller's: overwrite it
+			arg[:cap(arg)][i] = -999
+		}
 		for _, x := range xs {
 			w.offer(x, false)
 		}
@@ -137,7 +141,11 @@ func (w *wkWorld) exec(f []string) string {
 		return "ok"
 	case "pushfront":
 		xs := ints(f[1:])
-		w.w.PushFront(xs...)
+		arg := append(make([]int, 0, len(xs)+4), xs...)
+		w.w.PushFront(arg...)
+		for i := range arg[:cap(arg)] {
+			arg[:cap(arg)][i] = -999
+		}
 		for _, x := range xs {
 			w.offer(x, true)
 		}
